@@ -62,7 +62,7 @@ func (m c03) Run(ctx *core.Ctx) {
 		ctx.Begin(cs)
 		m.Exec(ctx, cs)
 	}
-	n = split(tierN(ctx.Tier, 300_000, 8_000_000), ctx.Shard, ctx.NShards)
+	n = split(tierN(ctx.Tier, 300_000, 25_000_000), ctx.Shard, ctx.NShards)
 	for i := int64(0); i < n; i++ {
 		in, base, has := startCase(r)
 		cs := &core.Case{Check: "history", Input: core.S(in), Base: core.S(base), HasBase: has,
